@@ -463,6 +463,13 @@ def funds_early_exit(repo: Repo, rep: Report, rid: str):
         n += 1
         gs = guards_at(m, r)
         names = {x.id for t, _ in gs for x in ast.walk(t) if isinstance(x, ast.Name)}
+        # a local bound once to an expression over the value alone (e.g. `no_value = value == ZERO`) reads as the value
+        for _ in range(4):
+            for nm in sorted(names - {"value", "ZERO"}):
+                defs = find_assign(hi, nm)
+                if len(defs) == 1:
+                    names = (names - {nm}) | {x.id for x in ast.walk(defs[0]) if isinstance(x, ast.Name)}
+        names -= {"is_zero", "is_bv_value", "int", "bool", "isinstance", "BV", "len"}
         ok = bool(gs) and names <= {"value", "ZERO"}
         rep.check(rid, ok, m, r, f"handle_insufficient_fund_case: early return under {sorted(guard_text(t, p) for t, p in gs)}", "the insufficient-funds branch may be skipped only for a zero value (not by sender/target, opcode or any other test)")
     if n == 0:
